@@ -41,7 +41,7 @@ func (Engine) Generate(r *core.Rng, property, tier string) *core.Plan {
 		// multisig actors: addresses controlled by M of N key-holding actors
 		p.SetKnob("multi", int64(r.Range(1, 2)))
 	}
-	if property == "C33" || (property == "C34" || property == "C03") && r.Bool(0.3) {
+	if property == "C33" || (property == "C34" || property == "C03") && r.Bool(0.3) || property == "C31" && r.Bool(0.5) {
 		// side-chain withdrawals: the environment's cross-chain arbiters
 		p.SetKnob("wdarbiters", int64(r.Range(3, 6)))
 	}
